@@ -15,7 +15,7 @@ from lib import spec
 
 T0 = 1700000000
 
-SUB_NAMES = ["a", "b", "c", 5, "5", None, "long-" + "x" * 40, 'q"uo\\te']
+SUB_NAMES = ["a", "b", "c", 5, "5", None, "long-" + "x" * 40, 'q"uo\\te', "", 0, False]
 
 
 def sub_key(name):
